@@ -666,28 +666,27 @@ Definition convert_delta_power_range (doc : obj) : res obj :=
   let* d1 := on_entries "Span" (range_entry "delta_power_range_db" "delta_power_range_dict_db") doc in
   on_entries "SI" (range_entry "power_range_db" "power_range_dict_db") d1.
 
-(* the code converts back json_data[key][0] only *)
-Definition back_range_first (key lk dk : string) (doc : obj) : res obj :=
+(* for span in json_data.get(key, []): if dk in span: r = span.pop(dk); span[lk] = [r[min], r[max], r[step]] *)
+Definition back_range_entry (lk dk : string) (e : json) : res json :=
+  let* has := key_in dk e in
+  if has then
+    let* eo := as_obj e in
+    let* r := jreq dk eo in
+    let* ro := as_obj r in
+    let* a := jreq "min_value" ro in let* b := jreq "max_value" ro in let* c := jreq "step" ro in
+    Ok (JObj (jset lk (JArr [a; b; c]) (jdel dk eo)))
+  else Ok e.
+Definition back_range_all (key lk dk : string) (doc : obj) : res obj :=
   match jget key doc with
   | None => Ok doc
   | Some l =>
       let* items := as_arr l in
-      match items with
-      | [] => Err "IndexError:list index out of range"%string
-      | e0 :: rest =>
-          let* has := key_in dk e0 in
-          if has then
-            let* eo := as_obj e0 in
-            let* r := jreq dk eo in
-            let* ro := as_obj r in
-            let* a := jreq "min_value" ro in let* b := jreq "max_value" ro in let* c := jreq "step" ro in
-            Ok (jset key (JArr (JObj (jdel dk (jset lk (JArr [a; b; c]) eo)) :: rest)) doc)
-          else Ok doc
-      end
+      let* items' := mapM (back_range_entry lk dk) items in
+      Ok (jset key (JArr items') doc)
   end.
 Definition convert_back_delta_power_range (doc : obj) : res obj :=
-  let* d1 := back_range_first "Span" "delta_power_range_db" "delta_power_range_dict_db" doc in
-  back_range_first "SI" "power_range_db" "power_range_dict_db" d1.
+  let* d1 := back_range_all "Span" "delta_power_range_db" "delta_power_range_dict_db" doc in
+  back_range_all "SI" "power_range_db" "power_range_dict_db" d1.
 
 (* nf_coef / nf_fit_coeff : [c0, c1, ...] <-> [{coef_order: i, nf_coef: ci}] *)
 Fixpoint enum_coef (i : Z) (l : list json) : list json :=
@@ -907,15 +906,11 @@ Definition expand_edfa (e : obj) : res (list (string * obj)) :=
     let* names := alias_names e in
     Ok (map (fun n => (n, jdel "other_name" (jset "type_variety" (JStr n) e))) names)
   else let* sk := subkey e in Ok [(sk, e)].
-(* Transceiver branch: the copy is taken BEFORE entry['type_variety'] is overwritten, and it is the input
-   entry that is overwritten *)
-Fixpoint trx_loop (cur : obj) (names : list string) : list (string * obj) :=
-  match names with
-  | [] => []
-  | n :: t => (n, jdel "other_name" cur) :: trx_loop (jset "type_variety" (JStr n) cur) t
-  end.
+(* Transceiver branch: copy, pop other_name, then set the name on the copy *)
 Definition expand_trx (e : obj) : res (list (string * obj)) :=
-  if jhas "other_name" e then let* names := alias_names e in Ok (trx_loop e names)
+  if jhas "other_name" e then
+    let* names := alias_names e in
+    Ok (map (fun n => (n, jset "type_variety" (JStr n) (jdel "other_name" e))) names)
   else let* sk := subkey e in Ok [(sk, e)].
 (* the dict equipment[key] after the assignments: the last assignment to a name wins *)
 Fixpoint lookup_last (n : string) (l : list (string * obj)) : option obj :=
